@@ -286,6 +286,13 @@ class DCAwareRoundRobinPolicy(LoadBalancingPolicy):
         # control connection startup/refresh
         if not self.local_dc and host.datacenter:
             if host.endpoint in self._endpoints:
+                # hosts without a known DC were filed under the unset local_dc;
+                # _dc() reports the inferred DC for them from now on, so move them there
+                with self._hosts_lock:
+                    no_dc_hosts = self._dc_live_hosts.pop(self.local_dc, ())
+                    if no_dc_hosts:
+                        self._dc_live_hosts[host.datacenter] = \
+                            self._dc_live_hosts.get(host.datacenter, ()) + no_dc_hosts
                 self.local_dc = host.datacenter
                 log.info("Using datacenter '%s' for DCAwareRoundRobinPolicy (via host '%s'); "
                          "if incorrect, please specify a local_dc to the constructor, "
